@@ -12,7 +12,7 @@ from bounded.oracle import INF
 def sweep_laws(run):
     from dvc import creplay
     from contracts.gens import fx
-    src = run.program.repo + '/src'
+    src = run.program.native_root() + '/src'
     if src not in sys.path:
         sys.path.insert(0, src)
     dtw = importlib.import_module('dtaidistance.dtw')
